@@ -17,7 +17,8 @@ RULE = ('values: text over ASCII / Latin-1 / BMP / astral planes with CR, LF, NU
         'Ombott.__call__, Response.copy(); x response classes Response / HTTPResponse / HTTPError; x every status in '
         'http.client.responses for the blacklist. Non-trivial = the value contains a control character or a non-ASCII character or is '
         'not a str; distinct = distinct (entry point, class, repr(value)).')
-REQUIRED = ['multi_valued_blacklist_checked', 'third_or_later_value_of_a_header', 'ctl_rejected', 'clean_accepted_and_roundtripped', 'non_ascii_roundtripped', 'multi_value_order_checked', 'blacklist_204',
+PYOPT = {'quick': 1, 'thorough': 1}     # one unit of every kind is also served by an interpreter started with -O (assert statements compiled out)
+REQUIRED = ['units_run_under_python_-O', 'multi_valued_blacklist_checked', 'third_or_later_value_of_a_header', 'ctl_rejected', 'clean_accepted_and_roundtripped', 'non_ascii_roundtripped', 'multi_value_order_checked', 'blacklist_204',
             'blacklist_304', 'statuses_checked', 'wsgi_emissions', 'entry_setitem', 'entry_append', 'entry_setdefault', 'entry_attr',
             'entry_ctor_dict', 'entry_ctor_pairs', 'entry_ctor_iterable', 'response_inspected_after_a_rejection', 'entry_more_headers', 'entry_httperror_options', 'non_str_types']
 ASSUMPTIONS = ['header names are ASCII tokens (the statement speaks of values)',
